@@ -27,6 +27,9 @@ BUNDLES: Dict[str, dict] = {
     "B6": {"sigs": [["a_b", 1, "sig"]], "subs": [["a", "B7", False]], "roles": None},
     "Diff": {"sigs": [["p", 1, ["role", "SOURCE", "SINK"]], ["n", 1, ["role", "SOURCE", "SINK"]]], "subs": [],
              "roles": ["SOURCE", "SINK"], "builtin": "Diff"},
+    # members of equal widths (a connection that pairs them wrongly is still width-correct), some below a sub-bundle
+    "B8": {"sigs": [["u", 2, "sig"], ["v", 2, "sig"], ["w", 2, "sig"]], "subs": [], "roles": None},
+    "B9": {"sigs": [["t", 1, "sig"]], "subs": [["d", "Diff", False]], "roles": None},
 }
 
 
@@ -314,7 +317,7 @@ def structural_designs() -> Iterator[Tuple[str, dict]]:
         yield (f"noconn-{variant}", {"bundles": B(), "modules": mods + [top], "top": "T"})
 
     # --- bundles ------------------------------------------------------------------------------------
-    for bname in ("B1", "B2", "B3", "B4", "B5", "B6"):
+    for bname in ("B1", "B2", "B3", "B4", "B5", "B6", "B8", "B9"):
         leaves = refsem.bundle_leaves({"bundles": BUNDLES}, bname)
         # a child exposing the bundle as a port and tying every leaf to a leaf device
         cin = []
@@ -338,11 +341,15 @@ def structural_designs() -> Iterator[Tuple[str, dict]]:
                     c1 = {"bp": ["bun", "bb"]}
                 elif form in ("anon", "anon-dict"):
                     mem = {}
-                    for path, w in leaves:
+                    for lk, (path, w) in enumerate(leaves):
                         cur = mem
                         for seg in path[:-1]:
                             cur = cur.setdefault(seg, {})
-                        cur[path[-1]] = S(f"q{w}")
+                        cur[path[-1]] = S(f"mq{lk}")  # (one signal per member: members of equal width must not be interchangeable)
+                        sigs.append([f"mq{lk}", w])
+                        # ... and an observer device of its own on each, or two single-terminal nets could swap unnoticed
+                        oleaf, oport, oothers = leaf_for_width(w)
+                        tops_insts.append(_inst(f"ob{lk}", L(oleaf), dict({oport: S(f"mq{lk}")}, **{p_: S(f"k{pw_}") for p_, pw_ in oothers.items()}), tag=40 + lk))
 
                     def mk(d):
                         out = {}
@@ -399,7 +406,7 @@ def structural_designs() -> Iterator[Tuple[str, dict]]:
                 c0.update(kc)
                 c1.update(kc)
                 top = _mod("T", sigs=sigs, buns=buns,
-                           insts=[_inst("c0", ["mod", "Cb"], c0), _inst("c1", ["mod", "Cb"], c1)])
+                           insts=[_inst("c0", ["mod", "Cb"], c0), _inst("c1", ["mod", "Cb"], c1)] + tops_insts)
                 yield (f"bundle-{bname}-{'flip' if flipped else 'noflip'}-{form}",
                        {"bundles": B(), "modules": [ch, top], "top": "T"})
 
